@@ -58,7 +58,28 @@ const INLINE_SEEDS: &[&str] = &[
     "let e = if false { 1 } else if true { 2 } else { 3 }; e",
 ];
 
+/// (name, text): operator / keyword chains of growing length with bracket depth <= 1, and the 64-level ladder
+fn chains() -> Vec<(String, String)> {
+    let mut v = vec![];
+    for n in [10usize, 100, 400, 1000, 3000, 30000] {
+        v.push((format!("binary + chain x{}", n), format!("let t = {}1;\nputs(t);", "1 + ".repeat(n))));
+        v.push((format!("assignment chain x{}", n), format!("let a = 0;\na = {}1;", "a = ".repeat(n))));
+        v.push((format!("prefix - chain x{}", n), format!("let x = {}1;", "-".repeat(n))));
+        v.push((format!("else-if chain x{}", n), format!("let c = 0;\nif c == 1 {{ 1 }}{} else {{ 0 }}", " else if c == 2 { 2 }".repeat(n))));
+        v.push((format!("match alternatives x{}", n), format!("match 5 {{ {} => 1, _ => 0 }}", (0..n).map(|i| i.to_string()).collect::<Vec<_>>().join(" | "))));
+        v.push((format!("binary chain followed by a stray ')' x{}", n), format!("{}1)", "1 + ".repeat(n))));
+    }
+    for d in [8usize, 32, 50, 56, 64] {
+        // strictly rising precedence inside every one of d nested blocks (the stated nesting bound is 64)
+        let level = "a = 1 || 1 && 1 == 1 | 1 ^ 1 & 1 << 1 + 1 * -if true {";
+        v.push((format!("rising-precedence ladder depth {}", d), format!("let a = 0;\n{}1{};\nputs(a);", level.repeat(d), "}".repeat(d))));
+    }
+    v
+}
+
 enum Sub {
+    /// long operator / keyword chains and the rising-precedence ladder, through the binary (native stack)
+    Chains,
     Chars { alpha: &'static [&'static str], n: u32, min_len: u32 },
     Toks { alpha: &'static [&'static str], n: u32, min_len: u32 },
     Nest,
@@ -270,6 +291,9 @@ impl P01 {
             let n = tier.pick(1, 2);
             subs.push(("E".into(), Sub::E2E { n }, strings_upto(kt, n)));
         }
+        if std::path::Path::new(&bin_path()).exists() {
+            subs.push(("F".into(), Sub::Chains, chains().len() as u64));
+        }
         let total = subs.iter().map(|s| s.2).sum();
         P01 { tier, subs, total }
     }
@@ -328,6 +352,7 @@ impl P01 {
                 }
                 toks.join(" ")
             }
+            Sub::Chains => chains()[i as usize].1.clone(),
             Sub::E2E { n } => {
                 let k = SIGMA_T.len() as u64;
                 let syms = unrank_string(i, k, *n);
@@ -352,6 +377,30 @@ impl Property for P01 {
     }
     fn run(&self, idx: u64) -> CaseOut {
         let (space, src) = self.text(idx);
+        if space == "F" {
+            // deep recursion in the recursive-descent front end runs on the native stack of the real binary
+            let dir = scratch_dir("c01");
+            let path = dir.join("chain.p2");
+            std::fs::write(&path, &src).unwrap();
+            let o = run_bin(&[path.to_str().unwrap()], b"", &[], 60);
+            let err = o.err_s();
+            let head: String = src.chars().take(60).collect();
+            if o.crashed() {
+                let native = matches!(o.signal, Some(6) | Some(11)) && err.contains("overflowed its stack");
+                return CaseOut {
+                    class: "F:native-stack-overflow".into(),
+                    verdict: if native {
+                        known_or_violation("C01", "native-stack-recursion", format!("the front end exhausted the native stack on a text of {} bytes starting {:?}", src.len(), head))
+                    } else {
+                        Verdict::Violation(format!("the binary crashed on a chain text starting {:?}: {}", head, one_line(&err, 200)))
+                    },
+                    states: 1,
+                    transitions: 1,
+                    traces: 1,
+                };
+            }
+            return CaseOut::pass("F:chain handled");
+        }
         if space == "E" {
             let dir = scratch_dir("c01");
             let path = dir.join("prog.p2");
